@@ -357,25 +357,29 @@ impl<'a, R: Resolve, U: Updater> Cloner for Importer<'a, R, U> {
         if let Some(&new_ref) = self.map.get(&old.get_inner()) {
             return Ok(Ref::new(new_ref));
         }
+        // reserve the new reference before descending: the object may (indirectly) refer to itself
+        let promise = self.updater.promise::<T>();
+        let new_ref = promise.get_ref();
+        self.map.insert(old.get_inner(), new_ref.get_inner());
+
         let obj = self.resolver.get(old)?;
         let clone = obj.deep_clone(self)?;
+        self.updater.fulfill(promise, clone)?;
 
-        let r = self.updater.create(clone)?;
-        self.map.insert(old.get_inner(), r.get_ref().get_inner());
-
-        Ok(r.get_ref())
+        Ok(new_ref)
     }
     fn clone_plainref(&mut self, old: PlainRef) -> Result<PlainRef> {
         if let Some(&new_ref) = self.map.get(&old) {
             return Ok(new_ref);
         }
+        // reserve the new reference before descending: the object may (indirectly) refer to itself
+        let promise = self.updater.promise::<Primitive>();
+        let new = promise.get_inner();
+        self.map.insert(old, new);
+
         let obj = self.resolver.resolve(old)?;
         let clone = obj.deep_clone(self)?;
-
-        let new = self.updater.create(clone)?
-            .get_ref().get_inner();
-
-        self.map.insert(old, new);
+        self.updater.fulfill(promise, clone)?;
 
         Ok(new)
     }
